@@ -429,6 +429,9 @@ def gen_scenario(scen: Choices, cls, cfg):
                 ao.pop("mask_version", None)
             if ao.get("ibg"):
                 ao["ibg"] = False
+            if "api_select" in ao and scen.chance(2, 3):
+                # ... and through another column selection of the same (kept) frame facade
+                ao["api_select"] = [3, 4, 1, 0, 2][scen.draw(5)]
             steps.append(again)
             scen.end(b_)
         if step["kind"] == "class_form" and len(steps) < max_steps and scen.chance(1, 2):
